@@ -44,6 +44,8 @@ def run(chk):
              "throw (new, growing container, user callback, allocating callee), at every loop cut and at every exit, each output vertex not provably "
              "orphaned satisfies n->next->prev == n and n->prev->next == n and has not been deleted; `delete` only of provably orphaned vertices. "
              "This is what ~ClipperBase -> DisposeAllOutRecs needs to free the rings after a std::bad_alloc")
+    chk.rule("RECURSION", "every directly self-recursive library function (18): no container parameter by value (memory = depth x size); where the "
+             "function uses a visited mark against cyclic data, every recursive call lies after the mark on every path")
     chk.rule("T.comparator", "LocMinSorter, IntersectListSort, HorzSegSorter are strict weak orders")
     for cfg in cfgs:
         db = AstDB(cfg)
@@ -54,6 +56,7 @@ def run(chk):
         e3.comparators(db, chk, cfg)
         e9.rule_hot_guard(db, chk, cfg)
         e13.rule_links(db, chk, cfg)
+        e9.rule_recursion(db, chk, cfg)
         # dangling OutPt / Active pointers in the sweep engine: the vectors that hold raw pointers into the output rings and the AEL
         # (horz_seg_list_, horz_join_list_, intersect_nodes_) and the owning outrec_list_ are empty whenever a public method returns -
         # CleanUp frees every OutPt/OutRec, so an entry that survives it dangles and is dereferenced by the next Execute
@@ -84,6 +87,7 @@ def run(chk):
     chk.floor("INT64.product", 150 * n)
     chk.floor("HOT.guard", 40 * n)
     chk.floor("LINK.consistent-at-throw", 60 * n)
+    chk.floor("RECURSION", 14 * n)
     _controls(chk)
     chk.explanation = (
         "Clauses of C10 whose truth is visible in the code are decided for all inputs: non-emptiness guards (this is the rule that found "
